@@ -165,6 +165,11 @@ typedef struct {
 	sqfs_dir_reader_t *aux;     /* path -> inode lookups for the data reader ops */
 	sqfs_super_t super;
 	int have_image;
+	/* after RELENV (the creator dropped its own references): where file and compressor were, to
+	 * read their counts for as long as one of the objects under test keeps them alive */
+	sqfs_file_t *file_peek;
+	sqfs_compressor_t *cmp_peek;
+	int released;
 } env_t;
 
 typedef struct {
@@ -371,11 +376,23 @@ static void do_shape(const void *o)
 	}
 }
 
+static size_t env_rc(int which)
+{
+	env_t *e = &env[0];
+	const void *p = which ? (const void *)e->cmp : (const void *)e->file;
+	if (e->released) {
+		/* the objects under test hold the LAST references: file and compressor are alive exactly
+		 * as long as one of the two is (kinds meta and dir: no streams involved) */
+		if (!slot[0].live && !slot[1].live)
+			return 0;
+		p = which ? (const void *)e->cmp_peek : (const void *)e->file_peek;
+	}
+	return p ? ((const sqfs_object_t *)p)->refcount : 0;
+}
+
 static void print_rc(void)
 {
-	printf("RC file=%zu cmp=%zu\n",
-	       env[0].file ? ((sqfs_object_t *)env[0].file)->refcount : 0,
-	       env[0].cmp ? ((sqfs_object_t *)env[0].cmp)->refcount : 0);
+	printf("RC file=%zu cmp=%zu\n", env_rc(0), env_rc(1));
 }
 
 /* -------------------------------------------------------------------- ops */
@@ -813,9 +830,7 @@ int main(void)
 			if (!slot[0].live) { printf("COPY dead\n"); continue; }
 			printf("SHAPE ");
 			do_shape(slot[0].obj);
-			printf(" file=%zu cmp=%zu\n",
-			       env[0].file ? ((sqfs_object_t *)env[0].file)->refcount : 0,
-			       env[0].cmp ? ((sqfs_object_t *)env[0].cmp)->refcount : 0);
+			printf(" file=%zu cmp=%zu\n", env_rc(0), env_rc(1));
 			fflush(stdout);
 			c = sqfs_copy(slot[0].obj);
 			if (c == NULL) {
@@ -834,6 +849,20 @@ int main(void)
 				printf("\n");
 			}
 			print_rc();
+		} else if (!strcmp(tok[0], "RELENV")) {
+			/* the creator drops its own references to file and compressor: from here on the
+			 * object under test (and its copy) hold the LAST ones, and the last sqfs_drop of
+			 * the two runs the destroy hooks of file and compressor.  Only for kinds whose
+			 * operations need neither the file nor the compressor from the harness. */
+			env_t *e = &env[0];
+			if (kind != K_META && kind != K_DIR) die("RELENV for this kind");
+			if (!e->released) {
+				e->file_peek = e->file; e->cmp_peek = e->cmp; e->released = 1;
+				fflush(stdout);
+				sqfs_drop(e->cmp); sqfs_drop(e->file);
+				e->cmp = NULL; e->file = NULL;
+			}
+			printf("RELENV\n");
 		} else if (!strcmp(tok[0], "DROP")) {
 			int si = slot_of(tok[1]);
 			fflush(stdout);
